@@ -450,7 +450,8 @@ struct Actor {
 }
 
 fn timeout_choice(sh: &Sh) -> Duration {
-    match choose(sh, 6) {
+    match choose(sh, 7) {
+        6 => Duration::from_secs(86_400 * 365 * 1000),
         0 => Duration::from_secs(3600),
         1 => Duration::ZERO,
         2 => Duration::from_millis(1),
@@ -975,8 +976,8 @@ impl Future for ProcFut {
         attempt_end(&sh, batch_no, &outcome);
         match outcome {
             ProcOutcome::Ok => Poll::Ready(Ok(())),
-            ProcOutcome::Fail => Poll::Ready(Err(BatchError::no_retry(TestErr))),
-            ProcOutcome::Retry(rem) => Poll::Ready(Err(BatchError::retry(TestErr, rem))),
+            ProcOutcome::Fail => Poll::Ready(Err(build_error(&sh, None))),
+            ProcOutcome::Retry(rem) => Poll::Ready(Err(build_error(&sh, Some(rem)))),
             ProcOutcome::PanicAsync => panic::panic_any(Injected("processor_future")),
             ProcOutcome::PanicSync => unreachable!(),
         }
@@ -1070,8 +1071,9 @@ fn draw_outcome(sh: &ShRef, arg: &Chan) -> (ProcOutcome, u32, Duration) {
             0 => ProcOutcome::Ok,
             1 => ProcOutcome::Fail,
             2 => {
-                // remainder shape: 0 suffix, 1 whole, 2 arbitrary subsequence, 3 empty
-                let shape = if storm { choose(sh, 2) } else { choose(sh, 4) };
+                // remainder shape: 0 suffix, 1 whole, 2 arbitrary subsequence, 3 empty, 4 the batch plus items the
+                // processor made up, 5 reordered (the processor may hand back whatever it likes: it must come back as is)
+                let shape = if storm { choose(sh, 2) } else { choose(sh, 6) };
                 let rem: Vec<Item> = match shape {
                     0 => {
                         let k = choose(sh, arg.len() as u32) as usize;
@@ -1079,7 +1081,15 @@ fn draw_outcome(sh: &ShRef, arg: &Chan) -> (ProcOutcome, u32, Duration) {
                     }
                     1 => arg.clone(),
                     2 => arg.iter().copied().filter(|_| chance(sh, 1, 2)).collect(),
-                    _ => Vec::new(),
+                    3 => Vec::new(),
+                    4 => {
+                        let mut v = arg.clone();
+                        let extra = 1_000_000 + choose(sh, 1000);
+                        v.push(extra);
+                        v.insert(0, extra + 1000);
+                        v
+                    }
+                    _ => arg.iter().rev().copied().collect(),
                 };
                 ProcOutcome::Retry(rem)
             }
@@ -1124,6 +1134,25 @@ fn draw_outcome(sh: &ShRef, arg: &Chan) -> (ProcOutcome, u32, Duration) {
         }
     });
     (outcome, polls_left, latency)
+}
+
+/// Build the processor's error through one of the public construction paths of `BatchError`
+/// (processors wrap and re-map inner errors: all of them must mean the same to the receiver).
+fn build_error(sh: &ShRef, remainder: Option<Chan>) -> BatchError<Chan> {
+    match remainder {
+        Some(rem) => match choose(sh, 4) {
+            0 | 1 => BatchError::retry(TestErr, rem),
+            // an inner layer said "not retryable", the processor attaches a remainder
+            2 => BatchError::<Chan>::no_retry(TestErr).map_retryable(|_| Some(rem)),
+            // an inner layer's remainder is replaced
+            _ => BatchError::retry(TestErr, vec![424242]).map_retryable(|r| r.map(|_| rem)),
+        },
+        None => match choose(sh, 3) {
+            0 | 1 => BatchError::no_retry(TestErr),
+            // an inner layer asked for a retry, the processor vetoes it
+            _ => BatchError::retry(TestErr, vec![424243]).map_retryable(|_| None::<Chan>),
+        },
+    }
 }
 
 fn attempt_end(sh: &ShRef, batch_no: u64, outcome: &ProcOutcome) {
